@@ -5,7 +5,7 @@
      L cp cp ...                 prep: stripped non-blank lines *)
 type sym =
   | Lit of int list | Vec of int list list | Uuid of int list | Repl of int list
-  | Eval of int list | Pack of int list * int list * int list * sym
+  | Eval of int list | NoneV | Pack of int list * int list * int list * string * sym
 
 let ints_of_str (s : n list) : int list = List.map int_of_n s
 let str_of_ints (l : int list) : n list = List.map n_of_int l
@@ -16,7 +16,8 @@ let rec show_sym = function
   | Uuid s -> "U:" ^ show_s s
   | Repl s -> "R:" ^ show_s s
   | Eval s -> "E:" ^ show_s s
-  | Pack (m, b, k, x) -> "P:" ^ show_s m ^ ":" ^ show_s b ^ ":" ^ show_s k ^ "(" ^ show_sym x ^ ")"
+  | NoneV -> "N"
+  | Pack (m, b, k, ks, x) -> "P:" ^ show_s m ^ ":" ^ show_s b ^ ":" ^ show_s k ^ "{" ^ ks ^ "}(" ^ show_sym x ^ ")"
 
 (* a deliberately small float grammar; the harness checks that it agrees with
    Python's float() on every component that occurs *)
@@ -47,10 +48,17 @@ let read_vec ps =
 let read_uuid s = Some (Uuid (ints_of_str s))
 let repl s = let s = ints_of_str s in if List.mem s known_repl then Some (Repl s) else None
 let eval_fn s _ = Some (Eval (ints_of_str s))
-let pack m b k _ x =
+(* the serializer table has no entry for variables starting with Q; the packer of
+   variables starting with Z raises; a packed value records the keys of the block
+   it was packed in (with ! for a None placeholder) *)
+let has_ser _ _ k = (match ints_of_str k with 81 :: _ -> false | _ -> true)
+let pack m b k vars x =
   match ints_of_str k with
-  | 81 :: _ -> None
-  | k' -> Some (Pack (ints_of_str m, ints_of_str b, k', x))
+  | 90 :: _ -> None
+  | k' ->
+    let ks = String.concat "," (List.map (fun (kk, v) ->
+      show_s (ints_of_str kk) ^ (match v with NoneV -> "!" | _ -> "")) vars) in
+    Some (Pack (ints_of_str m, ints_of_str b, k', ks, x))
 
 let show_trace t = String.concat "," (List.map (fun s -> show_s (ints_of_str s)) t)
 
@@ -101,7 +109,7 @@ let () =
       | [] -> print_endline ""
       | "P" :: safe :: ws ->
         let txt = str_of_ints (ints_of_words ws) in
-        (match from_human read_lit read_vec read_uuid repl eval_fn pack (safe = "1") txt with
+        (match from_human read_lit read_vec read_uuid repl eval_fn NoneV has_ser pack (safe = "1") txt with
          | OErr t -> print_endline ("ERR|" ^ show_trace t)
          | ONoMsg -> print_endline "NOMSG"
          | OMsg (m, t) ->
